@@ -738,7 +738,7 @@ pub fn property() -> Property {
     Property {
         id: "C08",
         level: "exploration",
-        rule: "generated: histories of <= 10 operations over <= 7 facts: insert/insert_explicit (a plain insert at a step = 2 mod 3 goes straight into working_memory_mut() resp. is never registered with the bare TMS: present, a legal premise, its retraction cascades; only presence / the returned cascade is judged for it), insert_logical(1-3 live premises), tms_mut().add_logical_justification(live fact, 1-3 live premises created before it), retract(any handle ever issued, live or already absent); the justifications of one fact name the same source rule (two facts in three) or a rule per step; about two thirds start from a chain / and-diamond / or-diamond / two-justifications-sharing-a-premise / explicit-fact-with-extra-logical-justification prefix. Exhaustive parts enumerate every such history of exactly N operations (all prefixes are checked on the way) over <= F facts with <= P premises per justification (part name exhNFP, e.g. exh942 = 9 operations, 4 facts, 2 premises; exh1032 = 10 operations, 3 facts). Oracle: model from the statement (live set + justification list; retract removes the target, then to a fixpoint every fact with no explicit justification and no justification whose premises are all live). engine-* parts: after every operation working_memory().get(h).is_some() == model liveness for every handle ever issued, is_explicit/is_logical agree for live facts, has_valid_justification is true for live facts and equals model support for facts without explicit justification. tms-* parts: the set returned by retract_with_cascade (minus the target) equals the set the model removes besides the target, plus the same flag checks. Non-trivial: the history contains a retraction of a live fact that removes >= 2 facts, or leaves a fact alive only through another (second logical or explicit) justification after one of its justifications became invalid, or targets a derived fact; distinct by operation sequence. Every third add_justification pads a 1-2 premise list with a repetition of its first entry (a premise list may name a fact twice; the justification needs it once).",
+        rule: "generated: histories of <= 10 operations over <= 7 facts: insert/insert_explicit (a plain insert at a step = 2 mod 3 goes straight into working_memory_mut() resp. is never registered with the bare TMS: present, a legal premise, its retraction cascades; only presence / the returned cascade is judged for it), insert_logical(1-3 live premises), tms_mut().add_logical_justification(live fact, 1-3 live premises created before it), retract(any handle ever issued, live or already absent); the justifications of one fact name the same source rule (two facts in three) or a rule per step; about two thirds start from a chain / and-diamond / or-diamond / two-justifications-sharing-a-premise / explicit-fact-with-extra-logical-justification prefix. Exhaustive parts enumerate every such history of exactly N operations (all prefixes are checked on the way) over <= F facts with <= P premises per justification (part name exhNFP, e.g. exh942 = 9 operations, 4 facts, 2 premises; exh1032 = 10 operations, 3 facts). Oracle: model from the statement (live set + justification list; retract removes the target, then to a fixpoint every fact with no explicit justification and no justification whose premises are all live). engine-* parts: after every operation working_memory().get(h).is_some() == model liveness for every handle ever issued, is_explicit/is_logical agree for live facts, has_valid_justification is true for live facts and equals model support for facts without explicit justification. tms-* parts: the set returned by retract_with_cascade (minus the target) equals the set the model removes besides the target, plus the same flag checks. Non-trivial: the history contains a retraction of a live fact that removes >= 2 facts, or leaves a fact alive only through another (second logical or explicit) justification after one of its justifications became invalid, or targets a derived fact; distinct by operation sequence. Every third add_justification pads a 1-2 premise list with a repetition of its first entry (a premise list may name a fact twice; the justification needs it once). The object under test is built with new() or with default() in turn (by a hash of the case's data, no draw).",
         assumptions: vec![
             "a derived fact that is itself the target of retract() is absent afterwards even if its premises are still present (the statement's 'exactly when' is read for facts that were not retracted directly)".into(),
             "support graphs are acyclic: an added justification only uses premises created before the justified fact".into(),
